@@ -57,9 +57,15 @@ FOREIGN = [('README.md', '# household budget 31c0\n'), ('notes.txt', 'ask bank a
 MODES = [None, None, None, 0o600, 0o444, 0o755, 0o640]
 
 
-def gen_variation(rng, shape, layout):
+RULELESS = ['# my notes 77aa\n# nothing here yet\n', 'field.description = regex_replace(field.description, "\\\\s+", " ")\n# cleaning only 88bb\n',
+            'is_big = amount > 100\n# variables only 99cc\n', '', '\n\n', '# 11dd\nfield.memo = trim(field.memo)\nis_q1 = month <= 3\n']
+
+
+def gen_variation(rng, shape, layout, force_ruleless=False):
     """case-level variations of the budget (all optional; about half of the cases keep the bare shape)"""
     v = {}
+    if shape.get('rules') and shape['settings'] != 'keyRules' and (force_ruleless or rng.random() < 0.25):
+        v['rules_text'] = rng.choice(RULELESS)        # a merchants.rules of the user's that holds no [rule] block: still the user's file
     if shape['settings'] != 'absent':
         if shape.get('mentionsVF') and rng.random() < 0.6:
             v['vf_key'] = True
@@ -97,6 +103,9 @@ def gen_cases(rng, quick):
     cases = []
     # targeted first: legacy budgets (migration must not happen unasked), .bak present, both layouts
     targeted = [s for s in core if s['csv'] == 'withRules' and s['settings'] in ('plain', 'commentMF') and not s['views'] and not s['mentionsVF']]
+    # … and the same legacy budgets holding an unreferenced merchants.rules without a [rule] block, under an explicit --migrate
+    ruleless = [s for s in targeted if s['rules']]
+    targeted = targeted + ruleless
     picks = targeted + [rng.choice(core if rng.random() < 0.8 else shapes) for _ in range(n - len(targeted))]
     for i, s in enumerate(picks):
         layout = 'new' if i % 3 == 1 else 'old'
@@ -107,10 +116,13 @@ def gen_cases(rng, quick):
             seq.append(rng.choice(pool))
         if i < len(targeted):
             seq = [rng.choice(READONLY), (['up'], 'up'), WRITERS[i % 2], rng.choice(READONLY)]
+        forced = len(targeted) - len(ruleless) <= i < len(targeted)
+        if forced:
+            seq = [rng.choice(READONLY), WRITERS[1], rng.choice(READONLY)]
         data = ('tally/' if layout == 'new' else '') + 'data/bank.csv'
         cmds = [[(data if a == 'DATA' else a) for a in argv] for argv, _ in seq]
         cases.append(dict({'kind': 'c20', 'shape': s, 'layout': layout, 'commands': cmds, 'programs': [p for _, p in seq]},
-                          **gen_variation(rng, s, layout)))
+                          **gen_variation(rng, s, layout, force_ruleless=forced)))
     return cases
 
 
